@@ -7,31 +7,434 @@
   semantics (`Model/Clif`).  `Agrees` is the property's per-instruction content:
   whenever the evaluator completes with a value, the JIT computes the same value
   (in the JIT's representation); otherwise the evaluator panicked (loud stop).
+
+  Operands range over ALL `IrValue`s of EVERY tag (also ill-typed combinations,
+  where the evaluator must panic) and both build profiles (`dbg`).  The JIT side
+  receives the operands as `FuncGen::operand` produces them (`jitRepr`, through
+  the generated `integer_operand`).  In the model a `Res.panic` on the JIT side is
+  either a run-time trap or a rejection by Cranelift's verifier (operand types
+  differ / wrong class); the two comparison instructions are the only arms where
+  the evaluator is *more* liberal than the verifier (`as_u64`/`as_i64`/`as_f64`
+  widen before comparing), so their theorems assume what the verifier checked
+  (`cl.ty = cr.ty`, float class for `FloatCmp`) — `IntCmp_needs_same_type` shows
+  the assumption is necessary.
 -/
-import RotoV.Model.Repr
-import RotoV.Generated.EvalArms
+import RotoV.Lemmas.ScalarEval
 
 namespace RotoV.C20
 open RotoV RotoV.Gen RotoV.Gen.OpTables RotoV.Gen.EvalArms
-
-variable [FloatOps]
 
 /-- "panics, or completes with the value the JIT computes". -/
 def Agrees (ev : Res IrValue) (jit : Res CVal) : Prop :=
   ev = .panic ∨ ∃ v cv, ev = .ok v ∧ jitRepr v = some cv ∧ jit = .ok cv
 
+theorem agrees_of_ok {ev : Res IrValue} {jit : Res CVal}
+    (h : ∀ v, ev = .ok v → ∃ cv, jitRepr v = some cv ∧ jit = .ok cv) : Agrees ev jit := by
+  cases ev with
+  | panic => left; rfl
+  | ok v => obtain ⟨cv, h1, h2⟩ := h v rfl; exact Or.inr ⟨v, cv, rfl, h1, h2⟩
+
+@[simp] theorem agrees_panic (jit : Res CVal) : Agrees .panic jit := Or.inl rfl
+
+/-- what `Agrees` excludes: completing with a value the JIT does not compute. -/
+theorem not_agrees_of_ne {v : IrValue} {cv cv' : CVal} (hv : jitRepr v = some cv) (hne : cv ≠ cv') :
+    ¬ Agrees (.ok v) (.ok cv') := by
+  rintro (h | ⟨v', c, h1, h2, h3⟩)
+  · cases h
+  · cases h1; cases h3; rw [hv] at h2; cases h2; exact hne rfl
+
 /-- `!x`: the evaluator's `Not` arm against `icmp_imm eq x, 0`. -/
 theorem eval_Not_agrees (dbg : Bool) (x : IrValue) (cx : CVal) (hx : jitRepr x = some cx) :
     Agrees (eval_Not dbg x) (cg_Not dbg cx) := by
-  cases x <;> simp [eval_Not, IrValue.as_bool, Agrees, Ev.ret]
+  cases x <;> simp [eval_Not, IrValue.as_bool, Ev.ret]
   case Bool b =>
-    cases b <;>
-      simp_all [jitRepr, integer_operand, cg_Not, Cg.operand, Cg.variable_, Cg.def_, Clif.icmp_imm,
-        Clif.iccHolds, CVal.mk', CTy.isFloat, CTy.bits, CVal.bv, RCast.cast, RInt.ofInt, RNot.not] <;>
-      (subst hx; decide)
+    rw [jitRepr_Bool] at hx; cases hx
+    exact Or.inr ⟨_, _, rfl, jitRepr_Bool _, by rw [cg_Not_bool]⟩
 
 /-- non-vacuity: a concrete operand meets the hypothesis and the evaluator completes. -/
 example : jitRepr (.Bool true) = some ⟨.I8, 1⟩ ∧ eval_Not true (.Bool true) = .ok (.Bool false) := by
   decide
 
+/-! ### integer comparisons -/
+
+/-- `IntCmp`: `Eq`/`Ne` through the generated `PartialEq for IrValue`, the unsigned comparisons
+    through `as_u64`, the signed ones through `as_i64`, against `icmp cc` with the generated
+    condition-code table.  `hty`: the verifier accepted the `icmp` (same operand types). -/
+theorem eval_IntCmp_agrees (dbg : Bool) (cmp : IntCmp) (l r : IrValue) (cl cr : CVal)
+    (hl : jitRepr l = some cl) (hr : jitRepr r = some cr) (hty : cl.ty = cr.ty) :
+    Agrees (eval_IntCmp dbg cmp l r) (cg_IntCmp dbg cmp cl cr) := by
+  apply agrees_of_ok; intro v hv
+  cases cmp <;> simp only [eval_IntCmp, Ev.ret, Res.bind_eq_ok_iff, Res.pure_eq, Res.ok.injEq] at hv
+  case ULt | ULe | UGt | UGe =>
+    obtain ⟨b, ⟨ul, hul, ur, hur, hb⟩, rfl⟩ := hv
+    obtain ⟨a, ha⟩ := as_u64_ok hul
+    obtain ⟨c, hc⟩ := as_u64_ok hur
+    obtain ⟨hw, ht⟩ := a.align c hl hr hty
+    rcases a with ⟨ty, w, hw1, hf, x, rx⟩
+    rcases c with ⟨ty', w', hw2, hf', y, ry⟩
+    simp only at hw ht ha hc; subst hw ht
+    rw [hl] at rx; rw [hr] at ry; simp only [Option.some.injEq] at rx ry; subst rx ry
+    refine ⟨_, jitRepr_Bool _, ?_⟩
+    rw [cg_IntCmp_int _ _ _ hf hw1]
+    simp [ROrd.lt, ROrd.le, ROrd.gt, ROrd.ge, RInt.lt, RInt.le, RInt.gt, RInt.ge, ha, hc] at hb
+    subst hb
+    simp [intCmpSpec, BitVec.ult, ← decide_not, Nat.not_lt]
+  case SLt | SLe | SGt | SGe =>
+    obtain ⟨b, ⟨ul, hul, ur, hur, hb⟩, rfl⟩ := hv
+    obtain ⟨a, ha⟩ := as_i64_ok hul
+    obtain ⟨c, hc⟩ := as_i64_ok hur
+    obtain ⟨hw, ht⟩ := a.align c hl hr hty
+    rcases a with ⟨ty, w, hw1, hf, x, rx⟩
+    rcases c with ⟨ty', w', hw2, hf', y, ry⟩
+    simp only at hw ht ha hc; subst hw ht
+    rw [hl] at rx; rw [hr] at ry; simp only [Option.some.injEq] at rx ry; subst rx ry
+    refine ⟨_, jitRepr_Bool _, ?_⟩
+    rw [cg_IntCmp_int _ _ _ hf hw1]
+    simp [ROrd.lt, ROrd.le, ROrd.gt, ROrd.ge, RInt.lt, RInt.le, RInt.gt, RInt.ge, ha, hc] at hb
+    subst hb
+    simp [intCmpSpec, BitVec.slt, ← decide_not, Int.not_lt]
+  case Eq =>
+    obtain ⟨b, hb', rfl⟩ := hv
+    obtain ⟨ty, w, hw, hf, x, y, rx, ry, hxy⟩ := eq_ok hb'
+    rw [hl] at rx; rw [hr] at ry; simp only [Option.some.injEq] at rx ry; subst rx ry
+    refine ⟨_, jitRepr_Bool _, ?_⟩
+    rw [cg_IntCmp_int _ _ _ hf hw, hxy]; rfl
+  case Ne =>
+    obtain ⟨b, ⟨b', hb', rfl⟩, rfl⟩ := hv
+    obtain ⟨ty, w, hw, hf, x, y, rx, ry, hxy⟩ := eq_ok hb'
+    rw [hl] at rx; rw [hr] at ry; simp only [Option.some.injEq] at rx ry; subst rx ry
+    refine ⟨_, jitRepr_Bool _, ?_⟩
+    rw [cg_IntCmp_int _ _ _ hf hw, hxy]; rfl
+
+
+/-- non-vacuity: `-1i8 < 1i8` signed is true on both sides, and as unsigned bit patterns the
+    evaluator refuses (`as_u64` on a signed tag panics). -/
+example : eval_IntCmp true .SLt (.I8 (.ofInt _ _ (-1))) (.I8 (.ofInt _ _ 1)) = .ok (.Bool true)
+    ∧ eval_IntCmp true .ULt (.I8 (.ofInt _ _ (-1))) (.I8 (.ofInt _ _ 1)) = .panic := by decide
+
+/-- the same-type hypothesis is necessary: on `1u8 < 2u16` the evaluator completes (it widens both
+    to `u64`) while Cranelift's verifier rejects the `icmp`. -/
+theorem IntCmp_needs_same_type :
+    ¬ Agrees (eval_IntCmp false .ULt (.U8 (.ofInt _ _ 1)) (.U16 (.ofInt _ _ 2)))
+        (cg_IntCmp false .ULt ⟨.I8, 1⟩ ⟨.I16, 2⟩)
+    ∧ jitRepr (.U8 (.ofInt _ _ 1)) = some ⟨.I8, 1⟩ ∧ jitRepr (.U16 (.ofInt _ _ 2)) = some ⟨.I16, 2⟩ := by
+  refine ⟨?_, by decide, by decide⟩
+  rintro (h | ⟨v, c, _, _, h3⟩)
+  · exact absurd h (by decide)
+  · exact absurd h3 (by rw [cg_IntCmp_mixed _ _ _ _ (by decide)]; exact fun h => by cases h)
+
+/-! ### wrapping arithmetic -/
+
+section
+variable [FloatOps]
+
+/-- `l + r`: the evaluator's `Add` arm (Rust `+` on the tag's type: overflow panics in the
+    debug profile and wraps in release) against `iadd` / `fadd`. -/
+theorem eval_Add_agrees (dbg : Bool) (l r : IrValue) (cl cr : CVal)
+    (hl : jitRepr l = some cl) (hr : jitRepr r = some cr) :
+    Agrees (eval_Add dbg l r) (cg_Add dbg cl cr) := by
+  cases l <;> cases r <;> simp [eval_Add, Ev.ret]
+  all_goals
+    apply agrees_of_ok; intro v hv
+    simp only [Res.bind_eq_ok_iff, Res.ok.injEq] at hv
+    obtain ⟨_, ⟨c, hc, rfl⟩, rfl⟩ := hv
+    have hb := RInt.add_bv hc
+    simp only [jitRepr_U8, jitRepr_U16, jitRepr_U32, jitRepr_U64, jitRepr_I8, jitRepr_I16,
+      jitRepr_I32, jitRepr_I64, Option.some.injEq] at hl hr ⊢
+    subst hl hr
+    refine ⟨_, rfl, ?_⟩
+    rw [hb]; exact cg_Add_int _ _ rfl rfl _ _
+
+/-- non-vacuity: `-3i32 + 5i32` completes. -/
+example : eval_Add false (.I32 (.ofInt _ _ (-3))) (.I32 (.ofInt _ _ 5)) = .ok (.I32 (.ofInt _ _ (2))) := by
+  decide
+
+/-- non-vacuity at the profile split: `200u8 + 100u8` is a loud stop in the debug profile and wraps
+    to 44 in release. -/
+example : eval_Add true (.U8 (.ofInt _ _ 200)) (.U8 (.ofInt _ _ 100)) = .panic
+    ∧ eval_Add false (.U8 (.ofInt _ _ 200)) (.U8 (.ofInt _ _ 100)) = .ok (.U8 (.ofInt _ _ 44)) := by decide
+
+/-- `l - r`: the evaluator's `Sub` arm (Rust `-` on the tag's type: overflow panics in the
+    debug profile and wraps in release) against `isub` / `fsub`. -/
+theorem eval_Sub_agrees (dbg : Bool) (l r : IrValue) (cl cr : CVal)
+    (hl : jitRepr l = some cl) (hr : jitRepr r = some cr) :
+    Agrees (eval_Sub dbg l r) (cg_Sub dbg cl cr) := by
+  cases l <;> cases r <;> simp [eval_Sub, Ev.ret]
+  all_goals
+    apply agrees_of_ok; intro v hv
+    simp only [Res.bind_eq_ok_iff, Res.ok.injEq] at hv
+    obtain ⟨_, ⟨c, hc, rfl⟩, rfl⟩ := hv
+    have hb := RInt.sub_bv hc
+    simp only [jitRepr_U8, jitRepr_U16, jitRepr_U32, jitRepr_U64, jitRepr_I8, jitRepr_I16,
+      jitRepr_I32, jitRepr_I64, Option.some.injEq] at hl hr ⊢
+    subst hl hr
+    refine ⟨_, rfl, ?_⟩
+    rw [hb]; exact cg_Sub_int _ _ rfl rfl _ _
+
+/-- non-vacuity: `-3i32 - 5i32` completes. -/
+example : eval_Sub false (.I32 (.ofInt _ _ (-3))) (.I32 (.ofInt _ _ 5)) = .ok (.I32 (.ofInt _ _ (-8))) := by
+  decide
+
+/-- `l * r`: the evaluator's `Mul` arm (Rust `*` on the tag's type: overflow panics in the
+    debug profile and wraps in release) against `imul` / `fmul`. -/
+theorem eval_Mul_agrees (dbg : Bool) (l r : IrValue) (cl cr : CVal)
+    (hl : jitRepr l = some cl) (hr : jitRepr r = some cr) :
+    Agrees (eval_Mul dbg l r) (cg_Mul dbg cl cr) := by
+  cases l <;> cases r <;> simp [eval_Mul, Ev.ret]
+  all_goals
+    apply agrees_of_ok; intro v hv
+    simp only [Res.bind_eq_ok_iff, Res.ok.injEq] at hv
+    obtain ⟨_, ⟨c, hc, rfl⟩, rfl⟩ := hv
+    have hb := RInt.mul_bv hc
+    simp only [jitRepr_U8, jitRepr_U16, jitRepr_U32, jitRepr_U64, jitRepr_I8, jitRepr_I16,
+      jitRepr_I32, jitRepr_I64, Option.some.injEq] at hl hr ⊢
+    subst hl hr
+    refine ⟨_, rfl, ?_⟩
+    rw [hb]; exact cg_Mul_int _ _ rfl rfl _ _
+
+/-- non-vacuity: `-3i32 * 5i32` completes. -/
+example : eval_Mul false (.I32 (.ofInt _ _ (-3))) (.I32 (.ofInt _ _ 5)) = .ok (.I32 (.ofInt _ _ (-15))) := by
+  decide
+
+
+end
+
+/-! ### division and remainder
+
+The evaluator ignores the instruction's `signed` field (`signed: _`): Rust's `/` and `%` on the
+tag's type decide.  The JIT takes `sdiv`/`udiv` (`srem`/`urem`) from the flag.  The theorems are
+stated for the flag `lower_binop` produces for the tag's type (`lower_div_flag` below); with the
+other flag the two sides differ (`Div_flag_matters`, `Mod_flag_matters`). -/
+
+/-- the `signed` flag belonging to a tag: the signed integer tags. -/
+def signedOf : IrValue → Bool
+  | .I8 _ | .I16 _ | .I32 _ | .I64 _ => true
+  | _ => false
+
+/-- `lower_binop` (generated) puts exactly that flag on `Div` and `Mod`: `signed` iff the operand
+    type is a signed integer type, and the instruction's type is the lowered operand type. -/
+theorem lower_div_flag (dbg : Bool) (k : IntKind) (sz : IntSize) :
+    ∃ ty, lower_type_prim dbg (.Int k sz) = .ok (some ty)
+      ∧ lower_binop dbg .Div (.Primitive (.Int k sz)) = .ok (.Div ty .lhs .rhs (decide (k = .Signed)))
+      ∧ lower_binop dbg .Mod (.Primitive (.Int k sz)) = .ok (.Mod ty .lhs .rhs (decide (k = .Signed))) := by
+  cases k <;> cases sz <;> exact ⟨_, rfl, rfl, rfl⟩
+
+theorem eval_Div_agrees (dbg : Bool) (l r : IrValue) (cl cr : CVal)
+    (hl : jitRepr l = some cl) (hr : jitRepr r = some cr) :
+    Agrees (eval_Div dbg l r) (cg_Div dbg (signedOf l) cl cr) := by
+  cases l <;> cases r <;> simp [eval_Div, Ev.ret, signedOf]
+  all_goals
+    apply agrees_of_ok; intro v hv
+    simp only [Res.bind_eq_ok_iff, Res.ok.injEq] at hv
+    obtain ⟨_, ⟨c, hc, rfl⟩, rfl⟩ := hv
+    simp only [jitRepr_U8, jitRepr_U16, jitRepr_U32, jitRepr_U64, jitRepr_I8, jitRepr_I16,
+      jitRepr_I32, jitRepr_I64, Option.some.injEq] at hl hr ⊢
+    subst hl hr
+    refine ⟨_, rfl, ?_⟩
+    first
+    | exact div_unsigned_agrees dbg _ rfl rfl hc
+    | exact div_signed_agrees dbg _ rfl rfl (by decide) hc
+
+/-- non-vacuity: `-7i32 / 2i32 = -3` (truncation toward zero) completes; `1u8 / 0u8` is the loud stop. -/
+example : eval_Div false (.I32 (.ofInt _ _ (-7))) (.I32 (.ofInt _ _ 2)) = .ok (.I32 (.ofInt _ _ (-3)))
+    ∧ eval_Div false (.U8 (.ofInt _ _ 1)) (.U8 (.ofInt _ _ 0)) = .panic := by decide
+
+theorem eval_Mod_agrees (dbg : Bool) (l r : IrValue) (cl cr : CVal)
+    (hl : jitRepr l = some cl) (hr : jitRepr r = some cr) :
+    Agrees (eval_Mod dbg l r) (cg_Mod dbg (signedOf l) cl cr) := by
+  cases l <;> cases r <;> simp [eval_Mod, Ev.ret, signedOf]
+  all_goals
+    apply agrees_of_ok; intro v hv
+    simp only [Res.bind_eq_ok_iff, Res.ok.injEq] at hv
+    obtain ⟨_, ⟨c, hc, rfl⟩, rfl⟩ := hv
+    simp only [jitRepr_U8, jitRepr_U16, jitRepr_U32, jitRepr_U64, jitRepr_I8, jitRepr_I16,
+      jitRepr_I32, jitRepr_I64, Option.some.injEq] at hl hr ⊢
+    subst hl hr
+    refine ⟨_, rfl, ?_⟩
+    first
+    | exact rem_unsigned_agrees dbg _ rfl rfl hc
+    | exact rem_signed_agrees dbg _ rfl rfl (by decide) hc
+
+/-- non-vacuity: `-7i32 % 2i32 = -1` (sign of the dividend) completes; `i8::MIN % -1` is a loud stop
+    in the evaluator although `srem` would yield 0. -/
+example : eval_Mod false (.I32 (.ofInt _ _ (-7))) (.I32 (.ofInt _ _ 2)) = .ok (.I32 (.ofInt _ _ (-1)))
+    ∧ eval_Mod false (.I8 (.ofInt _ _ (-128))) (.I8 (.ofInt _ _ (-1))) = .panic := by decide
+
+/-- the flag matters: with the *other* flag the evaluator completes `-2i8 / 2i8 = -1` while the JIT
+    computes `254 / 2 = 127`. -/
+theorem Div_flag_matters :
+    ¬ Agrees (eval_Div false (.I8 (.ofInt _ _ (-2))) (.I8 (.ofInt _ _ 2)))
+        (cg_Div false (!signedOf (.I8 (.ofInt _ _ (-2)))) ⟨.I8, 254⟩ ⟨.I8, 2⟩)
+    ∧ jitRepr (.I8 (.ofInt _ _ (-2))) = some ⟨.I8, 254⟩ ∧ jitRepr (.I8 (.ofInt _ _ 2)) = some ⟨.I8, 2⟩ := by
+  refine ⟨?_, by decide, by decide⟩
+  have h1 : eval_Div false (.I8 (.ofInt _ _ (-2))) (.I8 (.ofInt _ _ 2)) = .ok (.I8 (.ofInt _ _ (-1))) := by decide
+  have h2 : cg_Div false (!signedOf (.I8 (.ofInt _ _ (-2)))) ⟨.I8, 254⟩ ⟨.I8, 2⟩ = .ok ⟨.I8, 127⟩ := by decide
+  rw [h1, h2]
+  exact not_agrees_of_ne (cv := ⟨.I8, 255⟩) (by decide) (by decide)
+
+/-- likewise for `%`: `-3i8 % 2i8 = -1` against `253 % 2 = 1`. -/
+theorem Mod_flag_matters :
+    ¬ Agrees (eval_Mod false (.I8 (.ofInt _ _ (-3))) (.I8 (.ofInt _ _ 2)))
+        (cg_Mod false (!signedOf (.I8 (.ofInt _ _ (-3)))) ⟨.I8, 253⟩ ⟨.I8, 2⟩)
+    ∧ jitRepr (.I8 (.ofInt _ _ (-3))) = some ⟨.I8, 253⟩ ∧ jitRepr (.I8 (.ofInt _ _ 2)) = some ⟨.I8, 2⟩ := by
+  refine ⟨?_, by decide, by decide⟩
+  have h1 : eval_Mod false (.I8 (.ofInt _ _ (-3))) (.I8 (.ofInt _ _ 2)) = .ok (.I8 (.ofInt _ _ (-1))) := by decide
+  have h2 : cg_Mod false (!signedOf (.I8 (.ofInt _ _ (-3)))) ⟨.I8, 253⟩ ⟨.I8, 2⟩ = .ok ⟨.I8, 1⟩ := by decide
+  rw [h1, h2]
+  exact not_agrees_of_ne (cv := ⟨.I8, 255⟩) (by decide) (by decide)
+
+/-! ### floats and negation -/
+
+section
+variable [F : FloatOps]
+
+theorem eval_FDiv_agrees (dbg : Bool) (l r : IrValue) (cl cr : CVal)
+    (hl : jitRepr l = some cl) (hr : jitRepr r = some cr) :
+    Agrees (eval_FDiv dbg l r) (cg_FDiv dbg cl cr) := by
+  cases l <;> cases r <;> simp [eval_FDiv, Ev.ret]
+  case F32.F32 x y =>
+    rw [jitRepr_F32] at hl hr; cases hl; cases hr
+    exact Or.inr ⟨_, _, rfl, jitRepr_F32 _, cg_FDiv_f32 dbg _ _⟩
+  case F64.F64 x y =>
+    rw [jitRepr_F64] at hl hr; cases hl; cases hr
+    exact Or.inr ⟨_, _, rfl, jitRepr_F64 _, cg_FDiv_f64 dbg _ _⟩
+
+/-- non-vacuity: on two `f64` operands the evaluator completes, with the same `div64` the JIT applies. -/
+example (x y : F64) : eval_FDiv true (.F64 x) (.F64 y) = .ok (.F64 ⟨F.div64 x.bits y.bits⟩) := rfl
+
+/-- unary `-`: Rust's checked/wrapping negation on the signed tags, `fneg` on floats; every other
+    tag is a loud stop. -/
+theorem eval_Negate_agrees (dbg : Bool) (x : IrValue) (cx : CVal) (hx : jitRepr x = some cx) :
+    Agrees (eval_Negate dbg x) (cg_Negate dbg cx) := by
+  cases x <;> simp [eval_Negate, Ev.ret]
+  case F32 x =>
+    rw [jitRepr_F32] at hx; cases hx
+    exact Or.inr ⟨_, _, rfl, jitRepr_F32 _, cg_Negate_f32 dbg _⟩
+  case F64 x =>
+    rw [jitRepr_F64] at hx; cases hx
+    exact Or.inr ⟨_, _, rfl, jitRepr_F64 _, cg_Negate_f64 dbg _⟩
+  all_goals
+    apply agrees_of_ok; intro v hv
+    simp only [Res.bind_eq_ok_iff, Res.ok.injEq] at hv
+    obtain ⟨_, ⟨c, hc, rfl⟩, rfl⟩ := hv
+    have hb := RInt.neg_bv hc
+    simp only [jitRepr_I8, jitRepr_I16, jitRepr_I32, jitRepr_I64, Option.some.injEq] at hx ⊢
+    subst hx
+    refine ⟨_, rfl, ?_⟩
+    rw [hb]; exact cg_Negate_int _ _ rfl rfl _
+
+/-- non-vacuity: `-(5i16) = -5`; `-(i16::MIN)` panics in debug and wraps to `MIN` in release. -/
+example : eval_Negate true (.I16 (.ofInt _ _ 5)) = .ok (.I16 (.ofInt _ _ (-5)))
+    ∧ eval_Negate true (.I16 (.ofInt _ _ (-32768))) = .panic
+    ∧ eval_Negate false (.I16 (.ofInt _ _ (-32768))) = .ok (.I16 (.ofInt _ _ (-32768))) :=
+  ⟨by rfl, by rfl, by rfl⟩
+
+/-- `FloatCmp`: `Lt Le Gt Ge` compare after `as_f64` (an `f32` is promoted, which preserves every
+    comparison: `[FloatLaws]`); `Eq`/`Ne` go through `PartialEq for IrValue`, which has no float arm,
+    so the evaluator stops loudly.  `hty`, `hfl`: the verifier accepted the `fcmp` (equal float
+    operand types). -/
+theorem eval_FloatCmp_agrees [FloatLaws] (dbg : Bool) (cmp : FloatCmp) (l r : IrValue) (cl cr : CVal)
+    (hl : jitRepr l = some cl) (hr : jitRepr r = some cr) (hty : cl.ty = cr.ty)
+    (hfl : cl.ty.isFloat = true) :
+    Agrees (eval_FloatCmp dbg cmp l r) (cg_FloatCmp dbg cmp cl cr) := by
+  apply agrees_of_ok; intro v hv
+  cases cmp <;> simp only [eval_FloatCmp, Ev.ret, Res.bind_eq_ok_iff, Res.pure_eq, Res.ok.injEq] at hv
+  case Eq =>
+    obtain ⟨b, hb', rfl⟩ := hv
+    obtain ⟨ty, w, hw, hf, x, y, rx, ry, hxy⟩ := eq_ok hb'
+    rw [hl] at rx; cases rx; simp [hf] at hfl
+  case Ne =>
+    obtain ⟨b, ⟨b', hb', rfl⟩, rfl⟩ := hv
+    obtain ⟨ty, w, hw, hf, x, y, rx, ry, hxy⟩ := eq_ok hb'
+    rw [hl] at rx; cases rx; simp [hf] at hfl
+  all_goals
+    obtain ⟨b, ⟨a, ha, c, hc, hb⟩, rfl⟩ := hv
+    refine ⟨_, jitRepr_Bool _, ?_⟩
+    rcases as_f64_ok ha with ⟨x, rfl, rfl⟩ | rfl <;> rcases as_f64_ok hc with ⟨y, rfl, rfl⟩ | rfl
+    · rw [jitRepr_F32] at hl hr; cases hl; cases hr
+      rw [cg_FloatCmp_f32]
+      simp only [ROrd.lt, ROrd.le, ROrd.gt, ROrd.ge, Res.ok.injEq, FloatLaws.promote_lt,
+        FloatLaws.promote_le] at hb
+      rw [← hb]; rfl
+    · rw [jitRepr_F32] at hl; rw [jitRepr_F64] at hr; cases hl; cases hr; cases hty
+    · rw [jitRepr_F64] at hl; rw [jitRepr_F32] at hr; cases hl; cases hr; cases hty
+    · rw [jitRepr_F64] at hl hr; cases hl; cases hr
+      rw [cg_FloatCmp_f64]
+      simp only [ROrd.lt, ROrd.le, ROrd.gt, ROrd.ge, Res.ok.injEq] at hb
+      rw [← hb]; rfl
+
+/-- non-vacuity: two `f32` operands satisfy the hypotheses and the evaluator completes with the
+    promoted comparison. -/
+example (x y : F32) :
+    eval_FloatCmp true .Lt (.F32 x) (.F32 y) = .ok (.Bool (F.lt64 (F.promote x.bits) (F.promote y.bits)))
+    ∧ (CVal.f32 x.bits).ty = (CVal.f32 y.bits).ty ∧ (CVal.f32 x.bits).ty.isFloat = true :=
+  ⟨rfl, rfl, rfl⟩
+
+/-! ### summary: every scalar arm -/
+
+/-- the ten scalar instructions of `lir::eval` / `FuncGen::instruction`. -/
+inductive ScalarInstr
+  | IntCmp (cmp : IntCmp) | FloatCmp (cmp : FloatCmp)
+  | Not | Negate | Add | Sub | Mul | Div | FDiv | Mod
+  deriving DecidableEq, Repr
+
+/-- the generated evaluator arm (unary arms ignore `r`). -/
+def ScalarInstr.eval (dbg : Bool) : ScalarInstr → IrValue → IrValue → Res IrValue
+  | .IntCmp cmp, l, r => eval_IntCmp dbg cmp l r
+  | .FloatCmp cmp, l, r => eval_FloatCmp dbg cmp l r
+  | .Not, l, _ => eval_Not dbg l
+  | .Negate, l, _ => eval_Negate dbg l
+  | .Add, l, r => eval_Add dbg l r
+  | .Sub, l, r => eval_Sub dbg l r
+  | .Mul, l, r => eval_Mul dbg l r
+  | .Div, l, r => eval_Div dbg l r
+  | .FDiv, l, r => eval_FDiv dbg l r
+  | .Mod, l, r => eval_Mod dbg l r
+
+/-- the generated codegen arm on CLIF semantics; `signed` is the instruction's flag. -/
+def ScalarInstr.jit (dbg : Bool) (signed : Bool) : ScalarInstr → CVal → CVal → Res CVal
+  | .IntCmp cmp, l, r => cg_IntCmp dbg cmp l r
+  | .FloatCmp cmp, l, r => cg_FloatCmp dbg cmp l r
+  | .Not, l, _ => cg_Not dbg l
+  | .Negate, l, _ => cg_Negate dbg l
+  | .Add, l, r => cg_Add dbg l r
+  | .Sub, l, r => cg_Sub dbg l r
+  | .Mul, l, r => cg_Mul dbg l r
+  | .Div, l, r => cg_Div dbg signed l r
+  | .FDiv, l, r => cg_FDiv dbg l r
+  | .Mod, l, r => cg_Mod dbg signed l r
+
+/-- what Cranelift's verifier checked for the two comparison instructions (the only arms where
+    the evaluator accepts more than the verifier). -/
+def ScalarInstr.Verified : ScalarInstr → CVal → CVal → Prop
+  | .IntCmp _, l, r => l.ty = r.ty
+  | .FloatCmp _, l, r => l.ty = r.ty ∧ l.ty.isFloat = true
+  | _, _, _ => True
+
+/-- **T1.** For every scalar instruction, all operand values of every tag and both build
+    profiles: the evaluator panics, or completes with the value the JIT computes. -/
+theorem eval_agrees_or_panics [FloatLaws] (dbg : Bool) (i : ScalarInstr) (l r : IrValue) (cl cr : CVal)
+    (hl : jitRepr l = some cl) (hr : jitRepr r = some cr) (hv : i.Verified cl cr) :
+    Agrees (i.eval dbg l r) (i.jit dbg (signedOf l) cl cr) := by
+  cases i
+  case IntCmp cmp => exact eval_IntCmp_agrees dbg cmp l r cl cr hl hr hv
+  case FloatCmp cmp => exact eval_FloatCmp_agrees dbg cmp l r cl cr hl hr hv.1 hv.2
+  case Not => exact eval_Not_agrees dbg l cl hl
+  case Negate => exact eval_Negate_agrees dbg l cl hl
+  case Add => exact eval_Add_agrees dbg l r cl cr hl hr
+  case Sub => exact eval_Sub_agrees dbg l r cl cr hl hr
+  case Mul => exact eval_Mul_agrees dbg l r cl cr hl hr
+  case Div => exact eval_Div_agrees dbg l r cl cr hl hr
+  case FDiv => exact eval_FDiv_agrees dbg l r cl cr hl hr
+  case Mod => exact eval_Mod_agrees dbg l r cl cr hl hr
+
+/-- non-vacuity: the hypotheses are satisfiable for every instruction (each `IrValue` has a JIT
+    representation; equal float operands are `Verified`), and an arm completes. -/
+example (i : ScalarInstr) (x : F64) :
+    (∃ cl, jitRepr (.F64 x) = some cl ∧ i.Verified cl cl)
+    ∧ ScalarInstr.eval true .Add (.U8 (.ofInt _ _ 1)) (.U8 (.ofInt _ _ 2)) = .ok (.U8 (.ofInt _ _ 3)) := by
+  refine ⟨⟨_, jitRepr_F64 x, ?_⟩, by rfl⟩
+  cases i <;> simp [ScalarInstr.Verified, CTy.isFloat]
+
+end
 end RotoV.C20
